@@ -83,7 +83,36 @@ def run_sub(cmd, **kw):
 
 
 # ------------------------------------------------------------ (de)serialise
+_BIG = 10 ** 4000
+
+
+def int_to_text(n):
+    """Decimal digits of an int of any size (str() refuses more than 4300 digits on Python >= 3.11)."""
+    if -_BIG < n < _BIG:
+        return str(n)
+    sign, n = ('-' if n < 0 else ''), abs(n)
+    groups = []
+    while n >= _BIG:
+        n, low = divmod(n, _BIG)
+        groups.append(str(low).zfill(4000))
+    groups.append(str(n))
+    return sign + ''.join(reversed(groups))
+
+
+def text_to_int(t):
+    sign, t = (-1, t[1:]) if t.startswith('-') else (1, t)
+    n = 0
+    head = len(t) % 4000
+    if head:
+        n = int(t[:head])
+    for i in range(head, len(t), 4000):
+        n = n * _BIG + int(t[i:i + 4000])
+    return sign * n
+
+
 def enc(o):
+    if isinstance(o, int) and not isinstance(o, bool) and not -_BIG < o < _BIG:
+        return {'$i': int_to_text(o)}
     if isinstance(o, bytes):
         return {'$b': o.hex()}
     if isinstance(o, bytearray):
@@ -110,6 +139,8 @@ def dec(o):
                 return bytes.fromhex(o['$b'])
             if '$t' in o:
                 return tuple(dec(x) for x in o['$t'])
+            if '$i' in o:
+                return text_to_int(o['$i'])
             if '$f' in o:
                 return float(o['$f'])
             if '$r' in o:
@@ -121,7 +152,10 @@ def dec(o):
 
 
 def short(o, n=160):
-    s = repr(o)
+    try:
+        s = repr(o)
+    except ValueError:      # an int with more than 4300 digits somewhere inside
+        s = repr(enc(o))
     return s if len(s) <= n else s[:n] + '...(%d chars)' % len(s)
 
 
@@ -156,6 +190,8 @@ class Recorder:
         # so that a flood of one known mechanism can never crowd an unlisted one out of the record.
         d = {'property': prop, 'kind': kind, 'detail': enc(detail),
              'case': enc(case if case is not None else self.case)}
+        if not __debug__:
+            d['python_flags'] = '-O'      # observed by the worker that runs under python -O; the replay re-executes with it
         bucket = known_bucket(d) or 'unknown'
         key = '%s|%s|%s' % (prop, kind, bucket)
         self.dev_counts['%s|%s%s' % (prop, kind, '' if bucket == 'unknown' else '|known:' + bucket)] += 1
@@ -218,21 +254,25 @@ def nworkers():
     return n or min(16, os.cpu_count() or 4)
 
 
-def run_sharded(pid, cases, timeout_s, extra_args=()):
+def run_sharded(pid, cases, timeout_s, extra_args=(), opt_slice=0):
     """Distributes `cases` round-robin over worker subprocesses (never
     multiprocessing.Pool: a dying child must not hang the run). Returns
-    (list of dumps, list of problems). A problem makes the run inconclusive."""
+    (list of dumps, list of problems). A problem makes the run inconclusive.
+    With `opt_slice` > 0 one more worker re-runs an evenly spread sample of that many cases under `python -O`
+    (asserts stripped, __debug__ False): the property must not hinge on an assert statement being executed."""
     os.makedirs(WORK, exist_ok=True)
     tag = '%s-%d-%d' % (pid, os.getpid(), int(time.time() * 1000) % 100000000)
     n = max(1, min(nworkers(), len(cases)))
-    shards = [cases[i::n] for i in range(n)]
+    shards = [(cases[i::n], []) for i in range(n)]
+    if opt_slice and cases:
+        shards.append((cases[::max(1, len(cases) // opt_slice)][:opt_slice], ['-O']))
     procs = []
-    for i, shard in enumerate(shards):
+    for i, (shard, pyflags) in enumerate(shards):
         fin = os.path.join(WORK, '%s-%02d.in.json' % (tag, i))
         fout = os.path.join(WORK, '%s-%02d.out.json' % (tag, i))
         with open(fin, 'w') as f:
             json.dump(enc(shard), f)
-        p = subprocess.Popen([sys.executable, '-X', 'faulthandler', '-m', 'vmon', 'worker', pid, fin, fout] + list(extra_args),
+        p = subprocess.Popen([sys.executable, '-X', 'faulthandler'] + pyflags + ['-m', 'vmon', 'worker', pid, fin, fout] + list(extra_args),
                              cwd=VERIF, env=dict(child_env(), VERIF_SHARD=str(i)), stdout=subprocess.PIPE, stderr=subprocess.PIPE)
         procs.append((p, fin, fout, i))
     dumps, problems = [], []
@@ -270,6 +310,8 @@ def worker_main(pid, fin, fout, extra):
     with open(fin) as f:
         cases = dec(json.load(f))
     rec = REC
+    if not __debug__:
+        rec.count('cases_under_python_O', len(cases))
     mod.run_cases(cases, rec, *extra)
     with open(fout, 'w') as f:
         json.dump(rec.dump(), f)
@@ -385,7 +427,7 @@ def check_main(pid, cli_tier=None):
         problems.append('reference model self-test (values printed in ISO/IEC 18004): %s' % pr)
     cases = mod.gen_cases(tier, seed)
     timeout_s = getattr(mod, 'TIMEOUT', {'quick': 3600, 'thorough': 21600})[tier]
-    dumps, probs = run_sharded(pid, cases, timeout_s, extra_args=[tier, str(seed)])
+    dumps, probs = run_sharded(pid, cases, timeout_s, extra_args=[tier, str(seed)], opt_slice=getattr(mod, 'OPT_SLICE', {}).get(tier, 0))
     problems.extend(probs)
     if hasattr(mod, 'main_phase'):
         # phases that need the main process (threads, subprocess goldens, ...)
@@ -470,6 +512,9 @@ def replay_main(path):
     bootstrap()
     with open(path) as f:
         blob = json.load(f)
+    if blob['deviation'].get('python_flags') == '-O' and __debug__:
+        # the deviation was observed under python -O: replay in the same kind of interpreter
+        return subprocess.run([sys.executable, '-O', '-m', 'vmon', 'replay', path], cwd=VERIF, env=child_env()).returncode
     pid = blob['property']
     mod = load_prop(pid)
     case = dec(blob['deviation']['case'])
